@@ -95,6 +95,11 @@ func (m *MessageNewSessionTicket) Unmarshal(data []byte) error {
 	ticket := bytes.Clone(data[offset : offset+ticketLength])
 	offset += ticketLength
 
+	// extensions<0..2^16-2>: the vector (after its two-byte prefix) stays below
+	// the limit Marshal enforces
+	if len(data)-offset-2 > newSessionTicketMaxExtensionsLength {
+		return dtlserrors.ErrInvalidExtensionsLength
+	}
 	extensions, err := decodeExtensionList(data[offset:], extensionContextNewSessionTicket)
 	if err != nil {
 		return err
